@@ -8,8 +8,10 @@ package main
 // instructions answer "unknown" = false).
 
 import (
+	"fmt"
 	"go/token"
 	"go/types"
+	"sort"
 
 	"golang.org/x/tools/go/ssa"
 )
@@ -599,6 +601,40 @@ func (r *Region) concatSeqs(v RV, atomic func(RV) bool, depth int) [][]RV {
 			out = append(out, r.concatSeqs(RV{V: e, C: v.C}, atomic, depth+1)...)
 		}
 		return out
+	case *ssa.Call:
+		// the text of a local strings.Builder / bytes.Buffer at this read: what was written on each path to it
+		if alts := builderSeqs(x); alts != nil {
+			var out [][]RV
+			for _, alt := range alts {
+				out = append(out, r.concatParts(alt, v.C, atomic, depth)...)
+				if len(out) > 64 {
+					return out[:64]
+				}
+			}
+			return out
+		}
+		// strings.Join(parts, "sep") over a slice assembled by appends
+		if sc := x.Call.StaticCallee(); sc != nil && sc.String() == "strings.Join" && len(x.Call.Args) == 2 {
+			if _, isC := x.Call.Args[1].(*ssa.Const); isC {
+				if lists := sliceAlternatives(x.Call.Args[0], 0); lists != nil {
+					var out [][]RV
+					for _, l := range lists {
+						var parts []ssa.Value
+						for i, e := range l {
+							if i > 0 {
+								parts = append(parts, x.Call.Args[1])
+							}
+							parts = append(parts, e)
+						}
+						out = append(out, r.concatParts(parts, v.C, atomic, depth)...)
+						if len(out) > 64 {
+							return out[:64]
+						}
+					}
+					return out
+				}
+			}
+		}
 	}
 	os := r.Origins(RV{V: v.V, C: v.C})
 	if len(os) == 1 && os[0].V == v.V && os[0].C == v.C {
@@ -613,4 +649,204 @@ func (r *Region) concatSeqs(v RV, atomic func(RV) bool, depth int) [][]RV {
 		out = append(out, r.concatSeqs(RV{V: o.V, C: o.C}, atomic, depth+1)...)
 	}
 	return out
+}
+
+// concatParts: the alternatives of the concatenation of parts (values of activation c), each part expanded in turn.
+func (r *Region) concatParts(parts []ssa.Value, c *rctx, atomic func(RV) bool, depth int) [][]RV {
+	out := [][]RV{{}}
+	for _, pv := range parts {
+		alts := r.concatSeqs(RV{V: pv, C: c}, atomic, depth+1)
+		var next [][]RV
+		for _, l := range out {
+			for _, a := range alts {
+				next = append(next, append(append([]RV{}, l...), a...))
+				if len(next) > 64 {
+					break
+				}
+			}
+		}
+		out = next
+	}
+	return out
+}
+
+// builderSeqs: c reads (String) a strings.Builder / bytes.Buffer that is a local of its function and is only written by
+// WriteString/Write calls outside loops: the sequences of written values, one per distinct way of reaching c. nil if c is
+// not such a read.
+func builderSeqs(c *ssa.Call) [][]ssa.Value {
+	sc := c.Call.StaticCallee()
+	if sc == nil || len(c.Call.Args) != 1 {
+		return nil
+	}
+	switch sc.String() {
+	case "(*strings.Builder).String", "(*bytes.Buffer).String":
+	default:
+		return nil
+	}
+	al, ok := c.Call.Args[0].(*ssa.Alloc)
+	if !ok || al.Referrers() == nil {
+		return nil
+	}
+	writes := map[ssa.Instruction]ssa.Value{}
+	for _, rf := range *al.Referrers() {
+		switch u := rf.(type) {
+		case *ssa.Call:
+			usc := u.Call.StaticCallee()
+			if usc == nil || len(u.Call.Args) < 1 || u.Call.Args[0] != ssa.Value(al) {
+				return nil
+			}
+			switch usc.Name() {
+			case "WriteString", "Write":
+				if len(u.Call.Args) != 2 || blockReaches(u.Block(), u.Block()) {
+					return nil
+				}
+				writes[u] = u.Call.Args[1]
+			case "String", "Len", "Grow":
+			default:
+				return nil
+			}
+		case *ssa.DebugRef:
+		case *ssa.Store:
+			if u.Addr != ssa.Value(al) {
+				return nil
+			}
+		default:
+			return nil
+		}
+	}
+	fn := c.Parent()
+	type seqset map[string][]ssa.Value
+	key := func(s []ssa.Value) string {
+		k := ""
+		for _, v := range s {
+			k += fmt.Sprintf("%p,", v)
+		}
+		return k
+	}
+	in := map[*ssa.BasicBlock]seqset{}
+	in[al.Block()] = seqset{"": nil}
+	var result seqset
+	// blocks in dominator-tree preorder are not a topological order of the acyclic CFG; iterate to a fixed point instead
+	// (the sets only grow and are bounded)
+	for round := 0; round < len(fn.Blocks)+2; round++ {
+		changed := false
+		for _, b := range fn.Blocks {
+			cur := in[b]
+			if cur == nil {
+				continue
+			}
+			out := seqset{}
+			for k, s := range cur {
+				out[k] = s
+			}
+			for _, ins := range b.Instrs {
+				if ins == ssa.Instruction(c) {
+					result = seqset{}
+					for k, s := range out {
+						result[k] = s
+					}
+					break
+				}
+				if wv, ok := writes[ins]; ok {
+					nxt := seqset{}
+					for _, s := range out {
+						ns := append(append([]ssa.Value{}, s...), wv)
+						nxt[key(ns)] = ns
+					}
+					out = nxt
+				}
+			}
+			for _, s := range b.Succs {
+				if isBackEdge(b, s) {
+					continue
+				}
+				if in[s] == nil {
+					in[s] = seqset{}
+				}
+				for k, q := range out {
+					if _, have := in[s][k]; !have && len(in[s]) < 64 {
+						in[s][k] = q
+						changed = true
+					}
+				}
+			}
+		}
+		if !changed {
+			break
+		}
+	}
+	if len(result) == 0 {
+		return nil
+	}
+	var keys []string
+	for k := range result {
+		keys = append(keys, k)
+	}
+	sort.Strings(keys)
+	var out [][]ssa.Value
+	for _, k := range keys {
+		out = append(out, result[k])
+	}
+	return out
+}
+
+// sliceAlternatives: the element lists a slice value can hold when it is assembled by append calls from an empty slice
+// (make([]T, 0, n), nil, a literal) along the paths that reach v; nil if it is anything else.
+func sliceAlternatives(v ssa.Value, depth int) [][]ssa.Value {
+	if depth > 8 {
+		return nil
+	}
+	switch x := v.(type) {
+	case *ssa.Const:
+		if x.IsNil() {
+			return [][]ssa.Value{{}}
+		}
+	case *ssa.MakeSlice:
+		if isIntConst(x.Len, 0) {
+			return [][]ssa.Value{{}}
+		}
+	case *ssa.Slice:
+		if al, ok := x.X.(*ssa.Alloc); ok && x.Low == nil && x.High == nil {
+			return [][]ssa.Value{arrayLiteralElems(al)}
+		}
+		// make([]T, 0, k) with constant k: a zero-length slice of a fresh array
+		if al, ok := x.X.(*ssa.Alloc); ok && al.Comment == "makeslice" && x.Low == nil && x.High != nil && isIntConst(x.High, 0) {
+			return [][]ssa.Value{{}}
+		}
+	case *ssa.Phi:
+		var out [][]ssa.Value
+		for _, e := range x.Edges {
+			a := sliceAlternatives(e, depth+1)
+			if a == nil {
+				return nil
+			}
+			out = append(out, a...)
+		}
+		return out
+	case *ssa.Call:
+		bi, ok := x.Call.Value.(*ssa.Builtin)
+		if !ok || bi.Name() != "append" || len(x.Call.Args) != 2 {
+			return nil
+		}
+		base := sliceAlternatives(x.Call.Args[0], depth+1)
+		if base == nil {
+			return nil
+		}
+		var added []ssa.Value
+		if sl, ok := x.Call.Args[1].(*ssa.Slice); ok {
+			al, ok := sl.X.(*ssa.Alloc)
+			if !ok || al.Comment != "varargs" {
+				return nil
+			}
+			added = arrayLiteralElems(al)
+		} else {
+			return nil
+		}
+		var out [][]ssa.Value
+		for _, b := range base {
+			out = append(out, append(append([]ssa.Value{}, b...), added...))
+		}
+		return out
+	}
+	return nil
 }
